@@ -32,7 +32,9 @@ def spellings():
               'utf-8-sig', 'U8', 'U16', 'U32', 'UTF', 'utf8', 'utf16', 'utf32', 'cp1252', 'cp037', 'shift_jis'}
     out = {}
     for n in sorted(names):
-        for v in {n, n.upper(), n.title(), n.replace('_', '-'), n.replace('-', '_'), n.replace('_', '-').upper()}:
+        for v in {n, n.upper(), n.title(), n.replace('_', '-'), n.replace('-', '_'), n.replace('_', '-').upper(),
+                  # the codec registry also folds runs of punctuation and punctuation at either end
+                  n.replace('_', '__'), n.replace('_', '--'), n + '_', n.replace('_', '/'), n.replace('_', '.-')}:
             if not VALUE_RE.match(v) or v.isdigit() or re.match(r'^-?[0-9_]+$', v):
                 continue
             try:
